@@ -8,7 +8,8 @@
    XConstProp.repo_arith names the one the working tree's source has now. *)
 From Coq Require Import ZArith String List Bool.
 From HexVerif Require Import WMap Isa AsmLayout AsmSpecProofs AsmEncodeProofs.
-From HexVerif Require Import XAst XSem XConstProp XConstPropProofs XConstPropDeclProofs.
+From HexVerif Require Import XAst XSem XConstProp XConstPropProofs XConstPropDeclProofs XFrontPreserve XFrontPreserveProofs.
+From HexVerif Require XCodegenDemo.
 Import ListNotations.
 Local Open Scope Z_scope.
 
@@ -152,6 +153,60 @@ Theorem C07_cp_procs_thread : forall m st ps n vv aps, cp_procs m st ps n vv = C
 Proof. exact cp_procs_thread. Qed.
 Print Assumptions C07_cp_procs_thread.
 
+(* 10. SIMULATION of expressions WITH calls, system calls and array reads, of statements and of procedure bodies (the
+       part the _partial theorems 1 and 2 leave out).  ge / ge' are the interpreter's global environments of the source
+       and of the program XConstProp.front makes of it: same constants, and a procedure table in which every procedure
+       q corresponds to q' = the passes applied to q (proc_ok: same kind, body q' = TS (cp_stmt E (body q)), entering q
+       and q' builds the same frame, whose names resolve as the compiler's environment E says -- frame_inv).  Then for
+       every fuel f, every expression / expression list / statement / statement list whose passes succeed
+       (cp_expr E e = COk ae ...) and that is swap_safe, evaluated from states equal up to the order of footprints:
+       if the source evaluation at fuel f is not a failure, the transformed one at any fuel >= 4 f gives the same value /
+       control flow in an equivalent state (sim = "ok r -> res_eq R r r'").
+       PARTIAL: excluded by swap_safe (XFrontPreserve.v header): `>` / `<=` with two non-constant operands one of which
+       contains a call; a maximal constant sub-expression with ~=, >=, >, <= at its top; unary minus of a non-constant
+       operand; the call spelled 4294967295(..).  The procedure-table hypothesis is discharged for whole programs in
+       theorem 12 (program_PT). *)
+Theorem C07_front_simulation_partial : forall ge ge' : genv, g_vals ge' = g_vals ge ->
+  (forall f q, find_proc f (g_procs ge) = Some q -> exists q' E, find_proc f (g_procs ge') = Some q' /\ proc_ok ge ge' q q' E) ->
+  forall f, SE ge ge' f /\ SEs ge ge' f /\ SX ge ge' f /\ SXs ge ge' f /\ SWAP ge ge' f.
+Proof. exact sim_all. Qed.
+Print Assumptions C07_front_simulation_partial.
+
+(* 11. (iii) THE DECLARATION PART: the global declarations of the transformed program initialise exactly the same
+       constants, variables and arrays (XSem.init_globals); the same for a procedure's local declarations is
+       local_decls_replay (XFrontPreserveProofs.v), used in theorem 12. *)
+Theorem C07_front_globals_same : forall m p ap R, XSem.wf_program p = None -> names_ok p = true ->
+  constprop_program_with m p = COk ap ->
+  XSem.init_globals (globals p) [] [] [] = inr R ->
+  XSem.init_globals (globals (erase_program (opt_program ap))) [] [] [] = inr R.
+Proof. exact front_globals_same. Qed.
+Print Assumptions C07_front_globals_same.
+
+(* 12. WHOLE PROGRAMS: the front-end passes preserve the meaning of programs.  If XConstProp.front p = COk p', then every
+       behaviour (outputs, input consumed, exit value) that XSem gives the source program p at fuel f is the behaviour of
+       the transformed program p' at fuel 4 f (same step budget, same depth bound); hence, for XSem.run, every behaviour
+       reached within a quarter of the default fuel.  This is the direction C01 needs: C01_program_partial is stated for
+       the output of XConstProp.front.
+       PARTIAL, hypotheses (both decidable, computed by vm_compute in the Examples below):
+         names_ok p          no procedure has the empty name (the parser cannot produce one);
+         front_swap_safe p   the annotated program is swap_safe (exclusions (1)-(4) in the header of XFrontPreserve.v:
+                             `>` / `<=` between two non-constant operands one of which contains a call; a maximal
+                             constant sub-expression with ~=, >=, >, <= at its top; unary minus of a non-constant
+                             operand; the call spelled 4294967295(..)).
+       Ill-defined source programs are outside the statement by `= Behaviour b` (XSem answers Undef for the
+       relational-difference overflow of the known finding, for order-dependent operands, for wrap-around ...). *)
+Theorem C07_front_preserves_partial : forall p p' f steps depth inp b,
+  front p = COk p' -> names_ok p = true -> front_swap_safe p = true ->
+  XSem.run_fuel f steps depth p inp = Behaviour b -> XSem.run_fuel (f * 4) steps depth p' inp = Behaviour b.
+Proof. exact front_preserves_partial. Qed.
+Print Assumptions C07_front_preserves_partial.
+
+Theorem C07_front_preserves_run_partial : forall p p' f inp b,
+  front p = COk p' -> names_ok p = true -> front_swap_safe p = true -> (f * 4 <= XSem.default_fuel)%nat ->
+  XSem.run_fuel f XSem.default_steps XSem.default_depth p inp = Behaviour b -> XSem.run p' inp = Behaviour b.
+Proof. exact front_preserves_run. Qed.
+Print Assumptions C07_front_preserves_run_partial.
+
 (* the full statement against the effect-tracking interpreter XSem.eval -- not proved *)
 Definition C07_fold_agrees_full : Prop := fold_agrees_full.
 
@@ -210,3 +265,11 @@ Proof.
   split; [reflexivity|]. split; [reflexivity|]. split; [eexists; reflexivity|]. split; [reflexivity|].
   eexists. split; reflexivity.
 Qed.
+
+(* the hypotheses of theorem 12 hold for non-trivial programs: the val-propagation example above and C01's demo source
+   (recursion, a function used as `return f(..)` and as `x := f(..)`, array reads and writes, put through a val) *)
+Example C07_ex_front_preserves_hyps :
+  names_ok C07_ex_prog = true /\ front_swap_safe C07_ex_prog = true /\
+  names_ok XCodegenDemo.demo_src = true /\ front_swap_safe XCodegenDemo.demo_src = true /\
+  (exists q, front XCodegenDemo.demo_src = COk q).
+Proof. repeat split. eexists. vm_compute. reflexivity. Qed.
